@@ -19,7 +19,7 @@ func init() {
 		Decides: "R5.1: in get/GetAt every copy out of a slot is dominated by slot.seqno == seqno for the same slot expression, is bounded by that slot's own length(), and the timestamp/marker returned with it are the same slot's; Get passes its own arguments to get and returns its count or 0. " +
 			"R5.2: Store writes seqno, bytes, length+marker and timestamp through one cursor (the tail read once), with the parameters' values; the tail advances to (i+1) % len(entries) and the index returned is the cursor; len(buf) <= BufSize at every call; the marker bit used by Store is the one tested by marker() and masked out by length(), and BufSize fits in the length bits. " +
 			"R5.3: every access to entries/tail (and the rest of the Cache state) holds Cache.mu; slot bytes are only ever touched as the source or destination of a copy inside the package; no function hands out an entry by reference. " +
-			"R5.4: each consumer uses exactly buf[:n] with n the current returned count and nothing when n == 0; what the reader stores is the prefix it read (or re-marshalled), keyed by the same packet's own seqno/timestamp/marker; writers are told (seqno, index-returned-by-Store) and fetch with exactly that pair.",
+			"R5.4: each consumer uses exactly buf[:n] with n the current returned count and nothing when n == 0; what the reader stores is the prefix it read (or re-marshalled), keyed by the same packet's own seqno/timestamp/marker; writers are told (seqno, index-returned-by-Store) and fetch with exactly that pair. R5.5: the lookups (Get, GetAt) read no field of the cache but the ring and its lock: the ring is filled per stored packet, not per sequence number, so a lookup that consults the loss statistics (last, expected, the bitmap) to decide that a packet cannot be there misses packets that are.",
 		NotDecided: []string{
 			"that resize preserves the newest entries and ring order (the three copy ranges are value-level arithmetic on tail/capacity)",
 			"retrievability of the last <capacity> packets over store histories (a liveness-like statement about eviction order)",
@@ -37,6 +37,8 @@ func runC05(c *Ctx) {
 	c.Rule("R5.3", "E5", "ring accessed only under Cache.mu; slot bytes never escape by reference", 10)
 	c.Rule("R5.4", "E2", "consumers use exactly the returned count; stored bytes are the bytes read, keyed by the packet's own fields; writers fetch by the pair Store returned", 8)
 	cacheLookupRules(c, "R5.1")
+	c.Rule("R5.5", "E4", "whether a lookup finds a packet depends on the ring alone", 2)
+	cacheLookupReads(c, "R5.5")
 	cacheStoreRules(c, "R5.2")
 
 	// ---- R5.3 ----
@@ -942,4 +944,57 @@ func instrBefore(a, b ssa.Instruction) bool {
 		return false
 	}
 	return a.Block().Dominates(b.Block())
+}
+
+// R5.5: "the most recently stored packets, up to capacity, are retrievable"
+// is a statement about the ring.  Get and GetAt may read entries (and take the
+// lock) and nothing else of the Cache.
+func cacheLookupReads(c *Ctx, rule string) {
+	p := c.P
+	tn := p.TypeName("packetcache", "Cache")
+	if tn == nil {
+		c.Unknown(rule, "anchors", 0, "packetcache.Cache not found")
+		return
+	}
+	allowed := map[string]bool{"mu": true, "entries": true}
+	for _, name := range []string{"Get", "GetAt"} {
+		fs := p.Func("packetcache", "Cache", name)
+		if fs == nil {
+			c.Unknown(rule, "anchors", 0, "Cache.%s not found", name)
+			continue
+		}
+		info := fs.Pkg.TypesInfo
+		var other []string
+		var at token.Pos
+		ast.Inspect(fs.Body(), func(n ast.Node) bool {
+			se, ok := n.(*ast.SelectorExpr)
+			if !ok {
+				return true
+			}
+			sel := info.Selections[se]
+			if sel == nil || sel.Kind() != types.FieldVal {
+				return true
+			}
+			rt := sel.Recv()
+			if pt, isP := rt.(*types.Pointer); isP {
+				rt = pt.Elem()
+			}
+			if !types.Identical(rt, tn.Type()) {
+				return true
+			}
+			if !allowed[se.Sel.Name] {
+				other = appendUniqueStr(other, se.Sel.Name)
+				if !at.IsValid() {
+					at = se.Pos()
+				}
+			}
+			return true
+		})
+		pos := fs.Pos()
+		if at.IsValid() {
+			pos = at
+		}
+		c.Check(len(other) == 0, rule, "Cache."+name+" consults the ring only", pos, "reads entries under mu and nothing else of the cache",
+			"the lookup also reads "+strings.Join(other, ", ")+": whether a stored packet is found then depends on the loss statistics, which follow sequence numbers while the ring follows stores (a packet stored just before a gap, or before a backward jump, is reported absent)")
+	}
 }
